@@ -464,7 +464,7 @@ def _inline_job(job):
 
 
 def enum_tables(ctx):
-    """score tables over a 3-value alphabet: ties in the mean, equal means with different spreads, n_trials 1..3."""
+    """score tables over a 3-value alphabet: ties in the mean, equal means with different spreads, n_trials 1..3; plus 10..12 trials with the decisive costs in trials 10+."""
     rng = ctx.rng
     A = (0.0, 1.0, 2.0)
     shapes = [(1, 1), (1, 2), (2, 1), (2, 2), (3, 1), (1, 3), (4, 1), (2, 3), (3, 2)]
@@ -479,6 +479,14 @@ def enum_tables(ctx):
             rows = [list(c[i * n:(i + 1) * n]) for i in range(r)]
             for d in ("min", "max"):
                 jobs.append((d, rows, n))
+    # many trials (two-digit trial numbers: column names, their order, anything keyed by the trial's name) with the decisive costs in the LATE trials
+    for r, n in ((2, 10), (3, 11), (2, 12)) + (((3, 25), (2, 101)) if ctx.thorough else ()):
+        for _ in range(30 if not ctx.thorough else 150):
+            rows = [[1.0] * n for _ in range(r)]
+            for row in rows:
+                for t in rng.sample(range(9, n), rng.randrange(1, n - 8)):
+                    row[t] = rng.choice([-8.0, -1.0, 0.0, 3.0, 40.0])
+            jobs.append((rng.choice(("min", "max")), rows, n))
     extra = [(3, 3, 400), (4, 2, 400), (4, 3, 300)] if not ctx.thorough else [(4, 3, 20000), (5, 2, 5000), (5, 1, 243), (6, 3, 5000)]
     vals = [x / 4 for x in range(-8, 9)] + [1000.25, -1000.5, 2.0 ** 19]
     for r, n, cnt in extra:
@@ -529,7 +537,7 @@ def run_tuner_suite(ctx):
     ctx.rule("S-tuner: the real HyperTuner.execute/resolve around a scripted optimizer whose reported best cost is prescribed per (grid point, run) and whose rates carry "
              "(point id, run number) back through the process boundary; (a) real process pools: grids as dict / list of dicts / with an empty dict, 1..3 trials, min and max, "
              "tables with all means tied and different spreads, small-alphabet tables, distinct means; (b) in-process executor: every table over {0,1,2} for "
-             "(rows, trials) in 1x1..3x2 / 2x3 (sampled to 800 per shape in the quick tier) for min and max, random 3..4-row tables over dyadic values; "
+             "(rows, trials) in 1x1..3x2 / 2x3 (sampled to 800 per shape in the quick tier) for min and max, random 3..4-row tables over dyadic values, 2..3-row tables with 10..12 trials whose decisive costs sit in trials 10+; "
              "non-trivial = a table with at least two rows (one-row tables counted as trivial)")
     # ---------------- (b) enumerated tables through execute with the in-process executor
     jobs = enum_tables(ctx)
